@@ -86,7 +86,7 @@ def planar_disk(rng):
     else:
         p2, f = grid(rng, 4, 4, keep=lambda i, j: not (i >= 2 and j >= 2))
         p2, f = compact(p2, f)
-    s = rng.choice([0.1, 1.0, 1.0, 100.0])
+    s = rng.choice([1e-6, 1e-3, 0.1, 1.0, 1.0, 100.0, 1e4])      # the unit is the user's: micrometres to kilometres
     p2 = [[x * s, y * s] for x, y in p2]
     p2, f = scramble(rng, p2, f)
     planar_disk.scale = s
